@@ -23,7 +23,7 @@ STUBS = ["wrapper obligations: log_likelihood / log_likelihood_structural_change
 ASSUMES = ["cached values are never NaN (NaN is the miss sentinel; likelihoods of valid inputs are not NaN)",
            "bit-level equality of cached and recomputed values is argued (same function, same array), only value-level equality over the reals is solver-checked"]
 BOUNDS = {"quick": "arraymap: key length 2, 2 branches, <= 3 set operations + 1 get, initial size 2, max size 4 and 8 (growth and flush forced); wrappers: all genotypes ploidy 2 x 2 SNVs (abstract map) and every history of 3 plain / structural lookups over those genotypes on the real arraymap with capacity 8 (growth and overflow flush in between); calling dict cache: insert / lookup histories over alleles {0,1,2,31,32,33,40,63,64,65} at ploidy 2 and 3 with int64 keys; pedigree dict cache: diploid trio, 2 reads per sample with symbolic counts in 0..2",
-          "thorough": "wrapper histories of 4 lookups, capacities 8 and 16; arraymap: key length <= 3, <= 3 branches, <= 4 operations, max size up to 16; pedigree: plus tetraploid trio"}
+          "thorough": "wrapper histories of 3 lookups, capacities 8 and 16 (2x2 genotypes) and 16 and 32 (2x3 genotypes); arraymap: key length <= 3, <= 3 branches, <= 4 operations, max size up to 16; pedigree: plus tetraploid trio"}
 OUTSIDE = "longer histories than the bound (each get is covered by the inductive reading: any reachable map state of <= k sets); bit-level equality; numba typed-dict semantics"
 TASKS_PER_CHILD = 4
 
@@ -39,9 +39,11 @@ def configs(tier):
     # the assemble wrappers on the REAL arraymap with a tiny capacity: histories of plain / structural lookups that force growth and
     # overflow flushes in between -- every value returned must be the likelihood of the genotype asked for
     for first in range(4):
+        # (histories of 4 calls are 32768 paths per configuration: sized out; the thorough tier varies the capacity instead)
         for mx in ((8,) if quick else (8, 16)):
-            out.append(dict(group="wraphist", first=first, max=mx, ncalls=3 if quick else 4))
-        out.append(dict(group="wraphist", first=first, max=16, ncalls=3, B=3))  # 3 sites x 2 haplotypes; interval None / head / tail
+            out.append(dict(group="wraphist", first=first, max=mx, ncalls=3))
+        for mx in ((16,) if quick else (16, 32)):
+            out.append(dict(group="wraphist", first=first, max=mx, ncalls=3, B=3))  # 3 sites x 2 haplotypes; interval None / head / tail
     for G in ([[0, 0], [0, 1]], [[0, 1], [1, 0]], [[1, 1], [1, 1]]):
         for size in (4, 64):
             out.append(dict(group="transparent", G=G, max_size=size))
